@@ -191,7 +191,8 @@ def cases(tier, seed):
         else:
             specs.append({"id": "crash:" + name, "op": name, "mode": mode, "cost": 40})
     if tier == "thorough":
-        specs.append({"id": "crash-lines:H in S", "op": "H in S", "mode": "lines", "cost": 60})
+        for i in range(nsh):
+            specs.append({"id": "crash-lines:H in S:%d" % i, "op": "H in S", "mode": "lines", "shard": i, "nshards": nsh, "cost": 60})
         for i in range(nsh):
             specs.append({"id": "crash-assert:H in S:%d" % i, "op": "H in S", "mode": "full", "exc": "AssertionError", "shard": i, "nshards": nsh, "cost": 30})
             # every event kind incl. calls into C builtins
@@ -309,6 +310,8 @@ def run_case(spec):
         hist["line-events"] = n
         bad = {}
         for k in range(1, n + 1):
+            if k % spec.get("nshards", 1) != spec.get("shard", 0):
+                continue
             operands, status, _ = crash.inject_at_line(lib.PKG_DIR, make, fn, k, exc)
             hist["status:" + status] = hist.get("status:" + status, 0) + 1
             evals += 1
